@@ -89,24 +89,6 @@ def _per_named_bits_junk(env, mod, t, v, codec):
                     and isinstance(nv, tuple) and _junk_bits(nv[0], nv[1]))
 
 
-@carve('per-bmpstring-permitted-alphabet', ['C01', 'C05', 'C16', 'C18', 'C19', 'C13', 'C07'])
-def _per_bmp_from(env, mod, t, v, codec):
-    """PER/UPER BMPString with a FROM constraint: decoder rebuilds characters with
-    the wrong byte width."""
-    if codec not in ('per', 'uper'):
-        return False
-    return any_type(env, mod, t, lambda r: r.base.kind == 'BMPString' and r.alpha is not None)
-
-
-@carve('per-single-character-alphabet', ['C01', 'C05', 'C16', 'C18', 'C19', 'C13', 'C07'])
-def _per_single_char(env, mod, t, v, codec):
-    """PER/UPER FROM("a"): zero bits per character, decoder yields ''."""
-    if codec not in ('per', 'uper'):
-        return False
-    return any_type(env, mod, t, lambda r: r.base.kind in KM and r.alpha is not None
-                    and len(r.alpha.chars()) == 1)
-
-
 @carve('oer-utf8string-fixed-size-octets', ['C01', 'C16', 'C18', 'C19', 'C13', 'C07'])
 def _oer_utf8_fixed(env, mod, t, v, codec):
     """OER UTF8String (SIZE(n)) is encoded as n octets without length: breaks for
@@ -455,3 +437,137 @@ def _xer_cr(env, mod, t, v, codec):
     if codec != 'xer':
         return False
     return any_node(env, mod, t, v, lambda r, nv: isinstance(nv, str) and '\r' in nv)
+
+
+
+@carve('per-semi-constrained-integer-encoded-as-unconstrained', ['C05'])
+def _per_semi(env, mod, t, v, codec):
+    """PER/UPER INTEGER (lb..MAX) is encoded as an unconstrained whole number."""
+    if codec not in ('per', 'uper'):
+        return False
+    return any_node(env, mod, t, v, lambda r, nv: r.base.kind == 'INTEGER' and r.rng is not None
+                    and r.rng.lo is not None and r.rng.hi is None)
+
+
+@carve('per-universalstring-not-known-multiplier', ['C05'])
+def _per_universal(env, mod, t, v, codec):
+    """PER/UPER UniversalString ignores SIZE and FROM constraints (handled as an unconstrained octet-based string)."""
+    if codec not in ('per', 'uper'):
+        return False
+    return any_node(env, mod, t, v, lambda r, nv: r.base.kind == 'UniversalString' and (r.size is not None or r.alpha is not None))
+
+
+def _km_bits(r, aligned):
+    from .models import x691
+    chars = r.alpha.chars()
+    B = (len(chars) - 1).bit_length()
+    b = B
+    if aligned:
+        b = 1
+        while b < B:
+            b *= 2
+        if B == 0:
+            b = 0
+    return chars, b
+
+
+@carve('per-permitted-alphabet-index-used-where-value-fits', ['C05'])
+def _per_alpha_index(env, mod, t, v, codec):
+    """PER/UPER FROM-constrained known-multiplier string whose largest character value is <= 2^b - 1:
+    X.691 30.5.4 encodes each character as its own value, the library as its index in the alphabet."""
+    if codec not in ('per', 'uper'):
+        return False
+
+    def pred(r, nv):
+        if r.base.kind not in KM or r.alpha is None or r.alpha.ext or not isinstance(nv, str):
+            return False
+        chars, b = _km_bits(r, codec == 'per')
+        if ord(chars[-1]) > (1 << b) - 1:
+            return False
+        return any(chars.index(ch) != ord(ch) for ch in nv)
+    return any_node(env, mod, t, v, pred)
+
+
+
+@carve('per-aligned-numericstring-from-indexes-full-alphabet', ['C05'])
+def _per_numeric_from(env, mod, t, v, codec):
+    """Aligned PER NumericString with FROM: characters are indexed in the full NumericString
+    alphabet (space, 0-9) instead of the permitted alphabet."""
+    if codec != 'per':
+        return False
+    full = ' 0123456789'
+
+    def pred(r, nv):
+        if r.base.kind != 'NumericString' or r.alpha is None or r.alpha.ext or not isinstance(nv, str):
+            return False
+        chars = r.alpha.chars()
+        return any(chars.index(ch) != full.index(ch) for ch in nv if ch in chars)
+    return any_node(env, mod, t, v, pred)
+
+
+
+@carve('per-choice-index-in-declaration-order', ['C05'])
+def _per_choice_order(env, mod, t, v, codec):
+    """PER/UPER CHOICE index: the library numbers the root alternatives in declaration order,
+    X.691 23.2 in canonical tag order (differs when tags are not ascending, e.g. without AUTOMATIC TAGS)."""
+    if codec not in ('per', 'uper'):
+        return False
+
+    def pred(r, nv):
+        if r.base.kind != 'CHOICE' or not isinstance(nv, tuple):
+            return False
+        root = list(r.base.comps or [])
+        auto = tagging.component_autotags(env, r.mod, r.base)
+        try:
+            order = sorted(root, key=lambda c: tagging.tag_key(tagging.min_tag(env, r.mod, c.t, auto.get(c.name))))
+        except Exception:
+            return True
+        return [c.name for c in order] != [c.name for c in root]
+    return any_node(env, mod, t, v, pred)
+
+
+
+@carve('extensibility-implied-not-applied-to-nested-types', ['C05', 'C06', 'C07'])
+def _ext_implied_nested(env, mod, t, v, codec):
+    """EXTENSIBILITY IMPLIED module: a SEQUENCE/SET/CHOICE written inline as the element of a
+    SEQUENCE OF / SET OF does not get the implied extension marker."""
+    if codec not in ('per', 'uper', 'oer'):
+        return False
+    for r, path, _ in V.walk_types(env, mod, t):
+        if r.base.kind in ('SEQUENCE OF', 'SET OF') and r.mod.ext_implied:
+            e = r.base.elem
+            if e.kind in ('SEQUENCE', 'SET', 'CHOICE', 'SEQUENCE OF', 'SET OF'):
+                return True
+    return False
+
+
+@carve('per-open-type-with-empty-content', ['C05'])
+def _per_open_empty(env, mod, t, v, codec):
+    """PER/UPER: an extension addition (or CHOICE extension alternative) whose own encoding is empty is
+    wrapped with length 0; X.691 requires one zero octet (length 1)."""
+    if codec not in ('per', 'uper'):
+        return False
+    from .models import x691
+
+    def zero_bits(m, ty, val):
+        try:
+            w = x691.W(codec == 'per')
+            x691.Per(env, codec == 'per').enc(w, m, ty, val)
+            return w.n == 0
+        except Exception:
+            return True
+
+    def pred(r, nv):
+        b = r.base
+        if b.kind in ('SEQUENCE', 'SET') and isinstance(nv, dict):
+            for a in (b.ext or []):
+                if isinstance(a, Group):
+                    continue
+                if a.name in nv and zero_bits(r.mod, a.t, nv[a.name]):
+                    return True
+        if b.kind == 'CHOICE' and isinstance(nv, tuple):
+            for c in flat_additions(b):
+                if c.name == nv[0] and zero_bits(r.mod, c.t, nv[1]):
+                    return True
+        return False
+    return any_node(env, mod, t, v, pred)
